@@ -434,7 +434,7 @@ PROPS["C01"]["lean_targets"] = PROPS["C01"]["lean_targets"] + ["CrdtModel.Props.
 PROPS["C01"]["required_theorems"] = PROPS["C01"]["required_theorems"] + ["Crdt.C12.same_ops_same_sequence", "Crdt.C15.state_function_of_node_set"]
 PROPS["C01"]["profiles"] = PROPS["C01"]["profiles"] + [dict(name="list_hist", quick=500, thorough=10000), dict(name="merkle_hist", quick=500, thorough=10000), dict(name="glist_hist", quick=400, thorough=8000)]
 PROPS["C01"]["oracle_fields"] = PROPS["C01"]["oracle_fields"] + ["seq", "ro", "dag", "orphans", "roots"]
-PROPS["C01"]["statement_coverage"] = "proved for VClock, GCounter, PNCounter, GSet, LWWReg (unique markers), MaxReg, MinReg, MVReg (up to Vec order = its own ==), Orswot, List (C12), MerkleReg (C15), Map key level (C05); GList: correspondence + convergence oracle only; Map nested contents false on the pinned tree (known findings)"
+PROPS["C01"]["statement_coverage"] = "proved for VClock, GCounter, PNCounter, GSet, LWWReg (unique markers), MaxReg, MinReg, MVReg (up to Vec order = its own ==), Orswot, List (C12), MerkleReg (C15), Map key level (C05), GList (C01.glist); Map nested contents false on the pinned tree (known findings)"
 for _pid in ("C02", "C03", "C09", "C20"):
     PROPS[_pid]["lean_targets"] = PROPS[_pid]["lean_targets"] + ["CrdtModel.Props.C15"]
     PROPS[_pid]["required_theorems"] = PROPS[_pid]["required_theorems"] + ["Crdt.C15.merge_comm", "Crdt.C15.merge_assoc", "Crdt.C15.merge_idem", "Crdt.C15.merge_is_union", "Crdt.C15.duplicate_absorbed", "Crdt.C15.stale_merge_absorbed"]
